@@ -216,7 +216,8 @@ func ParseMessage(reader *bufio.Reader) (*Message, error) {
 			if pos == -1 {
 				return nil, errors.New("not a valid sip request")
 			}
-			name := line[0:pos]
+			// blanks may stand between the name and the colon, they are not part of the name
+			name := strings.TrimRight(line[0:pos], " \t")
 			// only SP and HTAB are blanks in SIP: TrimSpace would also take the unicode
 			// spaces ( no-break space, ideographic space, ... ) off a UTF-8 value
 			value := strings.Trim(line[pos+1:], " \t")
